@@ -13,7 +13,10 @@ another name -- defeats both.  This module gives the path model the missing piec
   paths are dropped from the model, so that `x is not None` after `x = None` / `x = n` means "the definition `x = n`
   was passed, together with everything that guarded it";
 * a branch on a name that holds a condition is read as that condition, evaluated where the name was bound
-  (`expand`), whatever the number of assignments to the name in the function.
+  (`expand`), whatever the number of assignments to the name in the function;
+* the "nothing yet" value need not be None: a dedicated sentinel object (`SentinelIndex`: a class-level / module-level
+  slot bound once to a fresh object and never rebound, or one evaluation of `object()`) is followed by identity, so
+  `x = self._MISSING ... x = json.load(f) ... if x is self._MISSING:` is the flag "the load did not complete".
 
 `bool_form` rewrites a conditional expression in boolean position into and/or/not (the engine now expands multi-return
 predicate helpers into conditional-expression trees), so that the CFG decomposes it like any other test.
